@@ -170,6 +170,7 @@ func runC20(c *an.Check) {
 	}
 	x.r3()
 	x.r4(conf)
+	x.r5()
 }
 
 // ---- small lookups -----------------------------------------------------------------------
